@@ -81,7 +81,7 @@ def code_lines(src):
     depth_block_comment = 0
     for i, l in enumerate(src):
         s = l.strip()
-        if re.match(r"#\[cfg\(test\)\]", s) and i + 1 < len(src) and re.match(r"\s*(pub )?mod ", src[i + 1]):
+        if re.match(r"#\[cfg\(test\)\]", s) and i + 1 < len(src) and re.match(r"\s*(pub(\([a-z]+\))? )?mod ", src[i + 1]):
             in_test = True
         if in_test:
             continue
@@ -118,6 +118,8 @@ def mutants_of_line(line):
         h = m.group(1).replace("_", "")
         n = int(h, 16)
         for v in (n >> 1, n ^ 1):
+            if v == n:
+                continue
             res.append(("hex %x->%x @%d" % (n, v, m.start()), code[:m.start()] + hex(v) + code[m.end():] + com))
     for a, b in SWAPS:
         start = 0
